@@ -136,6 +136,7 @@ def replay(ctx, pid, mode, behaviours, r1cs_share, nproc=12):
 def replay_file(ctx, path):
     case = json.load(open(path))
     res = ctx.run_vh(["gadget-tiny"], case["cases"], tags=("g_merkle",)) if case.get("kind") == "gadget-tiny" else \
+        ctx.run_vh(["gadget-hints"], case["cases"], tags=("g_merkle",)) if case.get("kind") == "gadget-hints" else \
         ctx.run_vh(["e2e"], case["cases"], timeout=3000) if case.get("kind") == "e2e" else ctx.run_vh(["mtb"], case["cases"])
     bad = [x for x in res if not x["ok"]]
     for x in bad:
@@ -156,7 +157,7 @@ def tiny_relation(ctx, mode, configs, nproc=12):
         ctx.cov["tiny_field_relation"] = "skipped: gadget-level driver does not compile against this tree (%s)" % str(e).splitlines()[-1][:160]
         return 0
     for p, d, b in configs:
-        c = ('SPECIFICATION Spec\nCONSTANTS FieldMode = "small"\nP = %d\nDepth = %d\nBatch = %d\nKind = "%s"\nINVARIANTS Export\nCHECK_DEADLOCK FALSE\n' % (p, d, b, mode))
+        c = ('SPECIFICATION Spec\nCONSTANTS FieldMode = "small"\nP = %d\nDepth = %d\nBatch = %d\nKind = "%s"\nSample = FALSE\nHintMutant = "none"\nINVARIANTS Export\nCHECK_DEADLOCK FALSE\n' % (p, d, b, mode))
         r = ctx.tlc("GadgetTiny", c, label="GadgetTiny %s F_%d depth=%d batch=%d (all tuples)" % (mode, p, d, b), timeout=3000, heap="24g")
         acc = r["traces"]
         jobs = [dict(p=p, depth=d, batch=b, kind=mode, accepted=acc, part=k, parts=nproc) for k in range(nproc)]
@@ -193,3 +194,47 @@ def end_to_end(ctx, mode, behaviours, n):
             ctx.violation("end-to-end (%s): %s: %s" % (mode, x["id"], x.get("detail")), dict(kind="e2e", cases=x.get("case")))
     ctx.cov["end_to_end_histories"] = len(pick)
     return len(pick)
+
+
+def hint_level(ctx, mode):
+    """Constraint-level relation with the prover-chosen wires explicit (digits, is-zero inverse): for EVERY tuple and EVERY hint assignment over a tiny
+    field, the constraints are satisfiable iff the batch is valid (TLC, exhaustive); two constraint-dropping mutants must be refuted."""
+    hc = lambda p, mut: ('SPECIFICATION Spec\nCONSTANTS FieldMode = "small"\nP = %d\nDepth = 1\nBatch = 1\nKind = "%s"\nSample = FALSE\nHintMutant = "%s"\nINVARIANTS HintSoundComplete\nCHECK_DEADLOCK FALSE\n' % (p, mode, mut))
+    for p in ([5] if ctx.quick else [5, 7]):
+        ctx.tlc("GadgetTiny", hc(p, "none"), label="GadgetTiny hint-level %s F_%d (all tuples x all prover-chosen wires)" % (mode, p), timeout=3000, heap="16g")
+    ctx.expect_mutant_violates("GadgetTiny", hc(5, "nobool"), "GadgetTiny hint mutant nobool (%s)" % mode, timeout=900)
+    if mode == "deletion":
+        ctx.expect_mutant_violates("GadgetTiny", hc(5, "noam"), "GadgetTiny hint mutant noam (deletion)", timeout=900)
+    # the same question asked of the real compiled R1CS over F_47: structured sample of tuples with GadgetTiny's verdict, every
+    # output of the bit-decomposition hint x candidate is-zero inverses tried against each rejected tuple
+    try:
+        ctx.build_harness(tags=("g_merkle",))
+    except Infra as e:
+        if "prover." not in str(e):
+            raise
+        ctx.cov["hint_level_r1cs"] = "skipped: gadget-level driver does not compile against this tree"
+        return
+    sc = 'SPECIFICATION Spec\nCONSTANTS FieldMode = "small"\nP = 47\nDepth = 1\nBatch = 1\nKind = "%s"\nSample = TRUE\nHintMutant = "none"\nINVARIANTS Export\nCHECK_DEADLOCK FALSE\n' % mode
+    uniq = ctx.tlc("GadgetTiny", sc, label="GadgetTiny sample over F_47 (%s)" % mode, timeout=900)["traces"]
+    acc = [i for i in uniq if i["accept"]]
+    rej = [i for i in uniq if not i["accept"]]
+    if not acc or not rej:
+        raise Infra("GadgetTiny F_47 sample has %d accepted / %d rejected tuples" % (len(acc), len(rej)))
+    r = rng(ctx, "hints47")
+    r.shuffle(rej)
+    nrej = (24 if mode == "deletion" else 120) if ctx.quick else (len(rej) if mode == "insertion" else 160)
+    chosen = acc + rej[:nrej]
+    jobs = [dict(kind=mode, depth=1, allInv=(not ctx.quick), items=chosen[i::12]) for i in range(12) if chosen[i::12]]
+    with ThreadPoolExecutor(12) as ex:
+        results = list(ex.map(lambda j: ctx.run_vh(["gadget-hints"], j, timeout=3000, tags=("g_merkle",)), jobs))
+    tried = 0
+    n = 0
+    for res in results:
+        for x in res:
+            n += 1
+            tried += x["observed"]["hint_assignments_tried"]
+            if not x["ok"]:
+                ctx.violation(x["detail"], dict(kind="gadget-hints", cases=x["case"]))
+    if n != len(chosen):
+        raise Infra("gadget-hints returned %d results for %d tuples" % (n, len(chosen)))
+    ctx.cov["hint_level_r1cs"] = dict(field=47, accepted_tuples=len(acc), rejected_tuples=len(chosen) - len(acc), hint_assignments_tried=tried)
